@@ -21,7 +21,7 @@ func H_C08_Step() {
 	// a handler that returns with a mutex of the connection still held blocks the receive loop at the next frame
 	zzvrt.Assert(zzvrt.LocksHeld(e.c) == 0, "C08.handler-returned-with-a-mutex-held")
 	// closures spawned by the event (delayed close, abort-done close)
-	zzvrt.RunSpawnedExcept("setHandshakeTimer") // delayed-close closures; timer goroutines stay parked
+	zzvrt.RunAll() // everything the event spawned runs; short delays elapse, handshake timers stay pending (SetTimerLimit in newEnv)
 	zzvrt.Cover("c08.step.end")
 }
 
